@@ -229,7 +229,10 @@ def w_histories(task):
             for attr in ("info_bits_deinterleaved", "info_bits_original", "voice_bits", "embedded_signalling_bits", "full_bits"):
                 buf = getattr(p1, attr, None)
                 if isinstance(buf, bitarray):
-                    buf.invert()
+                    try:
+                        buf.invert()
+                    except TypeError:  # a read-only view is the library's right
+                        pass
             try:
                 db = p1.data.as_bits()
                 db.invert()
@@ -243,9 +246,25 @@ def w_histories(task):
                 got_fields = kind.read(kind.parse(p2.data.as_bits()) if kind.family == "rate_data" else p2.data)
                 if got_fields != want_fields:
                     acc.violation(f"second_parse_fields_differ_after_caller_wrote_first_result:{kind.family}", case)
+            # (c) the bytes arrive in a receive buffer that the caller re-uses after parsing: the parsed burst owns its bits
+            rbuf = bytearray(fresh)
+            p3 = Burst.from_bytes(rbuf)
+            rbuf[:] = fresh3
+            rbits = bitarray()
+            rbits.frombytes(fresh)
+            p4 = Burst.from_bits(rbits, BurstTypes.DataAndControl)
+            rbits.invert()
+            for how, pb in (("from_bytes(bytearray)", p3), ("from_bits(bitarray)", p4)):
+                if pb.as_bytes() != fresh:
+                    acc.violation(f"parsed_burst_changes_when_caller_reuses_the_buffer_it_was_parsed_from:{kind.family}", {**case, "parsed_with": how},
+                                  "a parsed burst serialises to other bytes once the caller has overwritten the buffer it was parsed from")
+                else:
+                    gf_ = kind.read(kind.parse(pb.data.as_bits()) if kind.family == "rate_data" else pb.data)
+                    if gf_ != want_fields:
+                        acc.violation(f"parsed_fields_change_when_caller_reuses_the_buffer:{kind.family}", {**case, "parsed_with": how})
         except Exception as e:  # noqa: BLE001
             acc.violation(f"exception_burst_history:{kind.family}:" + exc_sig(e), case, repr(e))
-        acc.case(nontrivial=True, calls=9, outcome=dtname, sample=case if len(acc.samples) < 1 else None)
+        acc.case(nontrivial=True, calls=13, outcome=dtname, sample=case if len(acc.samples) < 1 else None)
     return acc
 
 
@@ -320,7 +339,19 @@ def w_voice_sync(task):
             acc.violation("voice_sync_burst_misclassified", case)
         if b.voice_bits.to01() != v:
             acc.violation("vocoder_bits_differ", case)
-        acc.case(nontrivial=True, calls=4, outcome=syncname, sample=case if len(acc.samples) < 1 else None)
+        try:
+            # re-used receive buffer: the parsed voice burst owns its bits
+            rbuf = bytearray(bitarray(full).tobytes())
+            b5 = Burst.from_bytes(rbuf, burst_type=BurstTypes.Vocoder)
+            rbuf[:] = bytes(33)
+            rbits = bitarray(full)
+            b6 = Burst.from_bits(rbits, BurstTypes.Vocoder)
+            rbits.setall(0)
+            if b5.as_bits().to01() != full or b6.as_bits().to01() != full:
+                acc.violation("voice_burst_changes_when_caller_reuses_the_buffer_it_was_parsed_from", case)
+        except Exception as e:  # noqa: BLE001
+            acc.violation("exception_voice_sync:" + exc_sig(e), case, repr(e))
+        acc.case(nontrivial=True, calls=6, outcome=syncname, sample=case if len(acc.samples) < 1 else None)
     return acc
 
 
